@@ -229,6 +229,18 @@ def coq_property(pid):
             "closed": closed, "axioms": sorted(set(axioms))}
 
 
+def coq_chk(pid):
+    """independent re-check of the compiled property file and everything it depends on (thorough tier)"""
+    with Lock("coq"):
+        p = sh(["timeout", "2400", "coqchk", "-silent", "-o", "-Q", ".", "Piko", "Piko.Properties." + pid], cwd=COQ, check=False, timeout=2500)
+    out = p.stdout
+    m = re.search(r"\* Axioms:(.*?)\n\s*\n\* Constants", out, flags=re.S)
+    axioms = []
+    if m and "<none>" not in m.group(1):
+        axioms = [l.strip() for l in m.group(1).split("\n") if l.strip()]
+    return {"ok": p.returncode == 0, "axioms": axioms, "tail": out[-1500:]}
+
+
 def coq_deps_obligations(pid):
     """Obligations = Lemma/Theorem/Corollary/Example statements in the files of our development that
     Properties/<pid>.v transitively requires (per coqdep)."""
